@@ -351,11 +351,14 @@ func (c *Cache[K, V]) SetWithTTL(key K, value V, cost int64, ttl time.Duration) 
 		c.onExit(prev)
 		i.flag = itemUpdate
 	}
+	verifPoint(vpSetUpdated, keyHash, uint64(i.flag))
 	// Attempt to send item to cachePolicy.
 	select {
 	case c.setBuf <- i:
+		verifPoint(vpSetSent, keyHash, 0)
 		return true
 	default:
+		verifPoint(vpSetDropped, keyHash, 0)
 		if i.flag == itemUpdate {
 			// Return true if this was an update operation since we've already
 			// updated the storedItems. For all the other operations (set/delete), we
@@ -376,6 +379,7 @@ func (c *Cache[K, V]) Del(key K) {
 	// Delete immediately.
 	_, prev := c.storedItems.Del(keyHash, conflictHash)
 	c.onExit(prev)
+	verifPoint(vpDelDetached, keyHash, conflictHash)
 	// If we've set an item, it would be applied slightly later.
 	// So we must push the same item to `setBuf` with the deletion flag.
 	// This ensures that if a set is followed by a delete, it will be
@@ -385,6 +389,7 @@ func (c *Cache[K, V]) Del(key K) {
 		Key:      keyHash,
 		Conflict: conflictHash,
 	}
+	verifPoint(vpDelSent, keyHash, conflictHash)
 }
 
 // GetTTL returns the TTL for the specified key and a bool that is true if the
@@ -430,6 +435,7 @@ func (c *Cache[K, V]) Close() {
 		return
 	}
 	c.Clear()
+	verifPoint(vpCloseCleared, 0, 0)
 
 	// Block until processItems goroutine is returned.
 	c.stop <- struct{}{}
@@ -452,6 +458,7 @@ func (c *Cache[K, V]) Clear() {
 	// Block until processItems goroutine is returned.
 	c.stop <- struct{}{}
 	<-c.done
+	verifPoint(vpClearStopped, 0, 0)
 
 	// Clear out the setBuf channel.
 loop:
@@ -472,9 +479,12 @@ loop:
 		}
 	}
 
+	verifPoint(vpClearDrained, 0, 0)
 	// Clear value hashmap and cachePolicy data.
 	c.cachePolicy.Clear()
+	verifPoint(vpClearPolicy, 0, 0)
 	c.storedItems.Clear(c.onEvict)
+	verifPoint(vpClearStore, 0, 0)
 	// Only reset metrics if they're enabled.
 	if c.Metrics != nil {
 		c.Metrics.Clear()
@@ -537,12 +547,15 @@ func (c *Cache[K, V]) processItems() {
 	}
 
 	for {
+		verifPoint(vpAppTop, 0, 0)
 		select {
 		case i := <-c.setBuf:
 			if i.wait != nil {
 				close(i.wait)
+				verifPoint(vpAppMarker, 0, 0)
 				continue
 			}
+			verifPoint(vpAppRecv, i.Key, uint64(i.flag))
 			// Calculate item cost value if new or update.
 			if i.Cost == 0 && c.cost != nil && i.flag != itemDelete {
 				i.Cost = c.cost(i.Value)
@@ -555,6 +568,7 @@ func (c *Cache[K, V]) processItems() {
 			switch i.flag {
 			case itemNew:
 				victims, added := c.cachePolicy.Add(i.Key, i.Cost)
+				verifPoint(vpAppAdded, i.Key, verifBool(added)<<32|uint64(len(victims)))
 				if added {
 					c.storedItems.Set(i)
 					c.Metrics.add(keyAdd, i.Key, 1)
@@ -563,6 +577,7 @@ func (c *Cache[K, V]) processItems() {
 					c.onReject(i)
 				}
 				for _, victim := range victims {
+					verifPoint(vpAppVictim, victim.Key, 0)
 					victim.Conflict, victim.Value = c.storedItems.Del(victim.Key, 0)
 					onEvict(victim)
 				}
@@ -572,12 +587,14 @@ func (c *Cache[K, V]) processItems() {
 
 			case itemDelete:
 				c.cachePolicy.Del(i.Key) // Deals with metrics updates.
+				verifPoint(vpAppDelPol, i.Key, i.Conflict)
 				_, val := c.storedItems.Del(i.Key, i.Conflict)
 				c.onExit(val)
 			}
 		case <-c.cleanupTicker.C:
 			c.storedItems.Cleanup(c.cachePolicy, onEvict)
 		case <-c.stop:
+			verifPoint(vpAppStop, 0, 0)
 			c.done <- struct{}{}
 			return
 		}
